@@ -15,5 +15,78 @@ PROPS = {
  },
 }
 
+STORE_TB = ['SQL engine: one statement is atomic, a transaction is all-or-nothing and isolated (assumed, modelled by Sql.transaction); SQLite stands in for Postgres/MySQL/CockroachDB',
+            'uuid.NewV5 is injective (modelled as the pair (network id, string)); uuid.NewV4 shard ids are distinct',
+            'translator harness/translator/main.go (go/ast): chunk sizes, default page size and the route table in Gen/Generated.v']
+STORE_FILES = ['Base/ListX.v', 'Store/SqlProofs.v', 'Store/PagingProofs.v', 'Store/MappingProofs.v', 'Store/ApiProofs.v']
+PROPS.update({
+ 'C04': {
+  'coq_files': STORE_FILES + ['Properties/C04.v'],
+  'theorems': ['C04_refines_multiset', 'C04_step', 'C04_invalid_rejected', 'C04_delete_exact', 'C04_list', 'C04_nonvacuous'],
+  'suites': [{'name': 'STORE', 'n_quick': 2500, 'n_thorough': 40000, 'shards_thorough': 4}],
+  'rule': 'random histories (6-21 steps each, fresh server per history) of REST create / delete-by-query / patch and gRPC transact / delete / list with valid and invalid arguments drawn from small pools so that duplicates, overlapping deletes and unknown namespaces occur; after EVERY step: full dump of both tables + a list; distinct = distinct (history position, request) lines; every case runs a real handler against SQLite',
+  'trusted_base': STORE_TB,
+  'assumptions': ['list requests in this suite use one page of 10000 (pagination is C07)'],
+  'level_text': 'Theorem run_refines: for every history of write/list operations the handlers+SQL model refines a per-network multiset (abs d = spec_run), rejected requests change nothing (both tables), invalid tuples are never accepted, deletes are exact, lists return the written strings (via C16) — by induction over histories, no axioms. Model tied to the real handlers and the real SQL persister by step-wise differential histories with full table dumps, and the multiset oracle is evaluated on the implementation directly.',
+  'level_note': 'Proved over the handler model at the level of decoded requests; JSON/proto decoding is C18/C13. Check/expand read-your-writes is covered through the engine suites (C01/C09) which write through the same API.',
+  'explanation': 'refinement proof + differential histories',
+ },
+ 'C05': {
+  'coq_files': ['Base/ListX.v', 'Store/SqlProofs.v', 'Properties/C05.v'],
+  'theorems': ['C05_all_or_nothing', 'C05_fault_anywhere_fails', 'C05_delete_chunks_exact', 'C05_chunk_sizes_positive'],
+  'suites': [{'name': 'ATOM', 'n_quick': 90, 'n_thorough': 1500, 'shards_thorough': 4}],
+  'rule': 'patch/transact requests with |I| in {0,1,2,3,99,100,101,250,2999,3000,3001,6001} and |D| in {0,1,99,100,101,150}; statement failures injected by SQLite triggers on poison rows at a random or last position of the INSERT chunks, DELETE chunks or the mapping INSERT; invalid tuple (unknown namespace / no subject) at first, middle or last position; dump digest (count + MD5 of both sorted tables) after every request; distinct = distinct request lines',
+  'trusted_base': STORE_TB,
+  'assumptions': ['PARTIAL: that the SQL engine hides uncommitted rows from concurrent readers and survives crashes is assumed, not proved; the check decides whether keto issues every statement of a request inside ONE transaction'],
+  'level_text': 'Theorems: transaction is all-or-nothing for every fault plan and every statement list; a fault at any statement position fails the request; chunked DELETE equals one exact delete; chunk sizes from the source are positive. Correspondence: real handlers on SQLite with trigger-injected statement failures at every kind of statement (mapping, 1st/2nd/3rd INSERT chunk, DELETE chunks) and invalid tuples at any position; the oracle requires a non-2xx request to leave both tables unchanged.',
+  'level_note': 'partial: snapshot isolation / crash atomicity of the database are runtime guarantees of the SQL engine and are assumed.',
+  'explanation': 'atomicity theorem + trigger-based fault injection',
+ },
+ 'C06': {
+  'coq_files': STORE_FILES + ['Properties/C06.v'],
+  'theorems': ['C06_frame', 'C06_statements_frame', 'C06_built_statements', 'C06_exists_own_rows', 'C06_list_own_rows'],
+  'suites': [{'name': 'NET', 'n_quick': 1500, 'n_thorough': 30000, 'shards_thorough': 4}],
+  'rule': 'two complete server stacks (registry, routers, gRPC servers) on ONE SQLite database under different network ids (the second through a Contextualizer); random histories alternate between the networks using the SAME object/subject strings; after every step the full dump of all networks; oracle: rows of the other network unchanged and each network equals its own multiset spec',
+  'trusted_base': STORE_TB,
+  'assumptions': [],
+  'level_text': 'Theorems: any API history in network A leaves the rows of every other network untouched (frame, by induction over histories); every statement keto builds for A is a statement of A; list/exists in B are functions of B rows only. Correspondence on two real stacks over one database.',
+  'level_note': 'check/expand isolation follows from the traversal predicates sharing in_net (see Engine model) and is exercised by the engine suites with a second network present.',
+  'explanation': 'frame theorem + two-network differential histories',
+ },
+ 'C07': {
+  'coq_files': ['Base/ListX.v', 'Store/SqlProofs.v', 'Store/PagingProofs.v', 'Properties/C07.v'],
+  'theorems': ['C07_all_once', 'C07_matching_is_the_filter', 'C07_page', 'C07_bad_token', 'C07_default_page_size_positive'],
+  'suites': [{'name': 'PAGE', 'n_quick': 700, 'n_thorough': 20000, 'shards_thorough': 4}],
+  'rule': 'tables of n in {0,1,2,5,30,99,100,101,150,201,250} rows; query shapes over namespace/object/relation/subject; page sizes {0,1,2,3,7,33,99,100,101,250,n-1,n,n+1,n/2,n/3,n/4}; REST and gRPC; a third of the iterations interleave inserts/deletes of other rows between page fetches; before every fetch the table snapshot in database order is given to the model; distinct = distinct page requests',
+  'trusted_base': STORE_TB,
+  'assumptions': ['shard ids are distinct and greater than uuid.Nil'],
+  'level_text': 'Theorem C07_all_once (any table, any query, any size >= 0): following the tokens yields exactly the matching rows in shard order, each once, pages <= page size, iteration ends at the first empty token; closed form of one page; malformed token is E_BadToken (400 after fix D12). Correspondence: every real page (REST and gRPC) equals the model page on the same snapshot, and the iteration oracle (stable rows exactly once, nothing foreign, nothing twice) is evaluated on the implementation.',
+  'level_note': 'stability under interleaved writes is checked by the oracle on the implementation and follows from C07_page (each page is an interval of shard ids); it is not yet stated as a separate Coq theorem.',
+  'explanation': 'keyset pagination theorem + differential pages',
+ },
+ 'C16': {
+  'coq_files': ['Base/ListX.v', 'Store/SqlProofs.v', 'Store/MappingProofs.v', 'Properties/C16.v'],
+  'theorems': ['C16_injective', 'C16_batch_lookup', 'C16_roundtrip', 'C16_from_tuple_positionwise'],
+  'suites': [{'name': 'MAP', 'n_quick': 90, 'n_thorough': 3000, 'shards_thorough': 4}, {'name': 'STORE', 'n_quick': 600, 'n_thorough': 5000}],
+  'rule': 'batches of 1..350 tuples through the real read-write Mapper.FromTuple and back through ToTuple; names: empty, 4-byte UTF-8, invalid UTF-8, NUL, 64 KiB, SQL-looking, bidi, same string as object and subject, heavy repeats and >100 distinct; invalid batches (unknown namespace / no subject at a random position); plus STORE histories (write then list)',
+  'trusted_base': STORE_TB,
+  'assumptions': [],
+  'level_text': 'Theorems: uuid5 injective (by representation), batchFromUUIDs = position-wise lookup for every batch size, page size >= 1 and repeats; FromTuple then ToTuple returns the written strings position by position for every valid batch (index arithmetic u[2i], u[2i+1] modelled literally). Correspondence against the real mappers on SQLite.',
+  'level_note': 'SHA-1 collision freeness of UUIDv5 is assumed.',
+  'explanation': 'mapping round trip',
+ },
+ 'C17': {
+  'coq_files': ['Store/MappingProofs.v', 'Store/ApiProofs.v', 'Gen/Generated.v', 'Properties/C17.v'],
+  'theorems': ['C17_read_routes_use_ro', 'C17_table_nonvacuous', 'C17_ro_mapper_no_statements', 'C17_list_no_effect'],
+  'suites': [{'name': 'READ', 'n_quick': 900, 'n_thorough': 20000, 'shards_thorough': 4}],
+  'rule': 'after some writes, 25 random read/syntax requests per server (REST GET/POST check, openapi variants, batch check, expand, list, namespaces, gRPC Check/BatchCheck/Expand/List/ListNamespaces, REST and gRPC OPL syntax check), half of the names never seen by the server, valid and invalid; full dump of both tables after each; oracle: dump unchanged',
+  'trusted_base': STORE_TB,
+  'assumptions': [],
+  'level_text': 'Theorem C17_read_routes_use_ro is re-proved on every run over the route table the translator regenerates from the source (every handler reachable from a read/syntax route, REST or gRPC, never calls the writing Mapper()); the read-only mapper issues no statement; list steps return the state unchanged. Correspondence: real read and syntax routers/servers, dump of both tables unchanged after every request.',
+  'level_note': 'the call-graph in the translator is intra-package and name-based (over-approximate for same-named methods)',
+  'explanation': 'route table theorem + dumps',
+ },
+})
+
 ALL = ['C%02d' % i for i in range(1, 20)]
 NOT_APPLICABLE = [{'property_id': p, 'reason': 'not yet built in this session (work in progress; see DESIGN.md section 6 order of work)'} for p in ALL if p not in PROPS]
